@@ -156,7 +156,8 @@ PROPS = {
             'bounded': [{'name': 'savable_round_trips', 'recipe': 'savable_members',
                          'functions': 'Savable.recreate_from / load_instance_state of subclasses, _ensure_persist_configured + the persist() hook '
                                       '(class objects as run-time values: assumed in the contracts), whole save -> load round trips',
-                         'bound': 'one object graph (plain dict / tuple / bound method / nested Savable members), custom loader in the context and '
+                         'bound': 'SavableFuture in 6 states (pending, result, falsy result, None, failed, cancelled) on its own and as a member; '
+                                  'one object graph (plain dict / tuple / bound method / nested Savable members), custom loader in the context and '
                                   'recorded in the saved state, recreate_from without a loader, lazily declared members after a parent instance '
                                   'was saved, missing class name / member, foreign bound method'},
                         {'name': 'auto_persist_member_sets', 'recipe': 'auto_persist_members',
@@ -167,7 +168,10 @@ PROPS = {
     'C13': {
         'scans': [],
         'trusted': [],
-        'bounded': [],
+        'bounded': [{'name': 'resume_value_search', 'recipe': 'process_resume_values',
+                     'functions': 'Wait(f) -> resume(v) -> f(v) end to end (user-defined __eq__ of the value is not modelled in the contracts)',
+                     'bound': '8 resume values: none given, None, 0, 42, a string, (), a value whose == is elementwise (refuses a truth value), '
+                              'a value that equals everything: the continuation receives exactly that object'}],
         'not_claimed': [],
     },
 }
